@@ -71,6 +71,164 @@ UNIT_OPS = {
 }
 
 
+# ---------------------------------------------------------------- text conversion: oracles and generators
+DIGITS36 = "0123456789abcdefghijklmnopqrstuvwxyz"
+
+
+def to_radix(n, r):
+    """independent positional conversion (magnitude only)"""
+    n = abs(n)
+    if n == 0:
+        return "0"
+    out = []
+    while n:
+        out.append(DIGITS36[n % r]); n //= r
+    return "".join(reversed(out))
+
+
+def parse_radix(s, r):
+    """the documented grammar of to_int: optional sign, then one or more digits valid in the radix
+    (letters in either case); anything else is an error. Returns int or None."""
+    body = s[1:] if s[:1] in "+-" else s
+    if not body:
+        return None
+    v = 0
+    for ch in body:
+        d = DIGITS36.find(ch.lower()) if ch.isascii() and ch.isalnum() else -1
+        if d < 0 or d >= r:
+            return None
+        v = v * r + d
+    return -v if s[0] == "-" else v
+
+
+def enc_str(s):
+    return "s:" + ".".join(str(ord(c)) for c in s)
+
+
+def dec_str(m):
+    """model answer str:<code points> -> python str (None if not a string answer)"""
+    if not m.startswith("str:"):
+        return None
+    b = m[4:]
+    return "".join(chr(int(t)) for t in b.split(".")) if b else ""
+
+
+def dump_str(s):
+    out = []
+    for c in s:
+        if c == '"':
+            out.append('\\"')
+        elif c == "\\":
+            out.append("\\\\")
+        elif ord(c) < 0x20 or ord(c) > 0x7e:
+            out.append("\\u{%x}" % ord(c))
+        else:
+            out.append(c)
+    return '(str "' + "".join(out) + '")'
+
+
+def gen_numeral(rng, pool, radix):
+    """a text for to_int / from_str_radix: mostly canonical numerals of pool values, then mutated"""
+    v = rng.choice(pool)
+    s = ("-" if v < 0 else "") + to_radix(v, radix)
+    k = rng.random()
+    if k < 0.45:
+        pass
+    elif k < 0.55:
+        s = s.upper()
+    elif k < 0.62:
+        s = ("+" + s) if v >= 0 else s
+    elif k < 0.70:   # leading zeros
+        z = "0" * rng.choice([1, 5, 40, 130])
+        s = (s[0] + z + s[1:]) if s[0] == "-" else z + s
+    elif k < 0.92:   # one mutation: insert / replace a character
+        ch = rng.choice(["_", " ", "-", "+", "z", "Z", "9", "g", "/", ":", "@", "`", "{", "é", "٣", ".", "e"])
+        i = rng.randrange(len(s) + 1)
+        s = s[:i] + ch + (s[i:] if rng.random() < 0.7 else s[i + 1:])
+    else:
+        s = rng.choice(["", "+", "-", "-+5", "+-5", "++5", "--5", "_", "_5", "5_", "0", "-0", "+0", "00", "0x10", " 5"])
+    return s
+
+
+ALIGN = {"<": "left", ">": "right", "^": "center", "=": "rws"}
+
+
+def gen_spec(rng):
+    """structured format spec (fields as in the documented grammar) and its text"""
+    sp = {"fill": None, "align": None, "sign": None, "alt": False, "zero": False, "width": None,
+          "grouping": None, "precision": False, "ty": None}
+    if rng.random() < 0.5:
+        sp["align"] = rng.choice("<>^=")
+        if rng.random() < 0.6:
+            sp["fill"] = rng.choice("!*0 x<>=^+-#_,.aZ")
+    if rng.random() < 0.4:
+        sp["sign"] = rng.choice("+- ")
+    sp["alt"] = rng.random() < 0.3
+    sp["zero"] = rng.random() < 0.3
+    if rng.random() < 0.65:
+        sp["width"] = rng.choice([1, 2, 3, 5, 8, 12, 20, 33, 70, 140])
+    if rng.random() < 0.4:
+        sp["grouping"] = rng.choice(",_")
+    sp["precision"] = rng.random() < 0.04
+    if rng.random() < 0.7:
+        sp["ty"] = rng.choice("xXoObBxob" + "dqe")
+    text = ((sp["fill"] or "") + sp["align"] if sp["align"] else "") + (sp["sign"] or "") + ("#" if sp["alt"] else "") + \
+        ("0" if sp["zero"] else "") + (str(sp["width"]) if sp["width"] else "") + (sp["grouping"] or "") + \
+        (".3" if sp["precision"] else "") + (sp["ty"] or "")
+    return sp, text
+
+
+def spec_model_args(sp):
+    o = lambda c: "-" if c is None else str(ord(c))
+    return " ".join([o(sp["fill"]), sp["align"] or "-", {None: "n", "+": "+", "-": "-", " ": "s"}[sp["sign"]],
+                     "1" if sp["alt"] else "0", "1" if sp["zero"] else "0", str(sp["width"]) if sp["width"] else "-",
+                     o(sp["grouping"]), "1" if sp["precision"] else "0", o(sp["ty"])])
+
+
+def format_oracle(a, sp):
+    """the book's formatting rules (lang/std_conventions.md#formatting, std/int.md format), written independently"""
+    if sp["precision"]:
+        return ERR
+    ty = sp["ty"]
+    if ty is None:
+        radix = 10
+    elif ty in "xX":
+        radix = 16
+    elif ty in "oO":
+        radix = 8
+    elif ty in "bB":
+        radix = 2
+    else:
+        return ERR
+    body = to_radix(a, radix)
+    if sp["grouping"]:
+        parts = []
+        while len(body) > 3:
+            parts.append(body[-3:]); body = body[:-3]
+        parts.append(body)
+        body = sp["grouping"].join(reversed(parts))
+    sign = "-" if a < 0 else {"+": "+", " ": " "}.get(sp["sign"], "")
+    if sp["alt"]:
+        if ty is None:
+            return ERR
+        sign += "0" + ty
+    out = sign + body
+    w = sp["width"]
+    if w is not None and w > len(out):
+        pad = w - len(out)
+        fc = sp["fill"] if sp["fill"] is not None else ("0" if sp["zero"] else " ")
+        al = sp["align"] or ("=" if sp["zero"] else ">")
+        if al == "<":
+            out = out + fc * pad
+        elif al == ">":
+            out = fc * pad + out
+        elif al == "=":
+            out = sign + fc * pad + body
+        else:
+            out = fc * (pad // 2) + out + fc * (pad - pad // 2)
+    return dump_str(out)
+
+
 def pow_exp(rng, a, lang=False):
     """exponents that keep a**b computable: huge exponents only for bases 0, 1, -1"""
     if abs(a) <= 1:
@@ -128,6 +286,8 @@ def model_to_dump(s):
         return f"(bool {s})"
     if s.startswith("err "):
         return ERR
+    if s.startswith("str:"):
+        return dump_str(dec_str(s))
     if s.startswith("["):
         inner = s[1:-1]
         if not inner:
@@ -180,13 +340,34 @@ def run(chk):
         b = pow_exp(rng, a)
         cases.append(("pow", {"op": "int", "f": "pow", "a": str(a), "b": str(b)}, f"int pow {a} {b}", pow_oracle(a, b), (a, b)))
 
+    # text conversion, directly on LazyBigint
+    for a in pool:
+        cases.append(("to_string", {"op": "int", "f": "to_string", "a": str(a)}, f"int to_string {a}", "STR" + str(a), (a,)))
+        for radix in (2, 8, 10, 16, rng.choice([3, 5, 7, 36, 1, 0, 37])):
+            if fits(a):
+                want = "STR" + to_radix(a, radix) if radix in (2, 8, 10, 16) else "PANIC"
+            else:
+                want = "STR" + to_radix(a, radix) if 2 <= radix <= 36 else "PANIC"
+            cases.append(("magnitude_to_str", {"op": "int", "f": "magnitude_to_str", "a": str(a), "radix": radix},
+                          f"int magnitude_to_str {a} {radix}", want, (a, radix)))
+    for _ in range(1500 if quick else 40000):
+        radix = rng.choice([2, 8, 10, 16, 36, 3, 7, 11, 35, rng.randint(2, 36)])
+        t = gen_numeral(rng, pool, radix)
+        v = parse_radix(t, radix)
+        cases.append(("from_str_radix", {"op": "int", "f": "from_str_radix", "a": "0", "s": t, "radix": radix},
+                      f"int from_str_radix {enc_str(t)} {radix}", "none" if v is None else tag(v), (t, radix)))
+        chk.count("text:from_str_radix:" + ("valid" if v is not None else "invalid"))
     impl = run_harness([c[1] for c in cases])
     model = run_model([c[2] for c in cases])
     for (f, req, line, want, inp), ri, rm in zip(cases, impl, model):
         chk.evaluations += 1
         got = "PANIC" if "panic" in ri else ri.get("r", json.dumps(ri))
         gm = "PANIC" if rm.startswith("panic") else rm
-        if any(abs(x) > I64_MAX for x in inp):
+        if gm.startswith("str:"):
+            gm = "STR" + dec_str(gm)
+        if f in ("to_string", "magnitude_to_str") and got != "PANIC":
+            got = "STR" + got
+        if any(isinstance(x, int) and abs(x) > I64_MAX for x in inp):
             chk.nontrivial.add((f,) + tuple(inp))
         chk.count("unit:" + f)
         if want == "PANIC":
@@ -264,13 +445,34 @@ def run(chk):
             mn //= math.factorial(k)
         lcases.append(("multinom", f"multinom([{', '.join(map(str, ks))}])" if ks else "multinom([].map((x:int)->{x}))", None, o_int(mn), tuple(ks)))
 
+    # text: to_int (with and without base), format, to_str through the model as well
+    for _ in range(4 * n):
+        base = rng.choice([10, 10, 16, 2, 8, 36, 3, 7, 35, rng.randint(2, 36), 1, 0, -5, 37, 2**64])
+        radix = base if 2 <= base <= 36 else 10
+        t = gen_numeral(rng, pool, radix)
+        if 2 <= base <= 36:
+            v = parse_radix(t, base)
+            want = ERR if v is None else o_int(v)
+        else:
+            want = ERR
+        if base == 10 and rng.random() < 0.5:
+            lcases.append(("b.to_int", f'to_int("{t}")', f"int b.to_int {enc_str(t)} 10", want, (t,)))
+        else:
+            lcases.append(("b.to_int", f'to_int("{t}", {lit(base)})', f"int b.to_int {enc_str(t)} {base}", want, (t, base)))
+        a = rng.choice(pool)
+        sp, text = gen_spec(rng)
+        lcases.append(("b.format", f'format({lit(a)}, "{text}")', f"int b.format {a} {spec_model_args(sp)}", format_oracle(a, sp), (a, text)))
+        lcases.append(("b.to_str", f"to_str({lit(a)})", f"int b.to_str {a}", dump_str(str(a)), (a,)))
+        lcases.append(("route.text", f"to_int(to_str({lit(a)})) == {lit(a)}", None, o_bool(True), (a,)))
+        r2 = rng.choice([("x", 16), ("o", 8), ("b", 2), ("", 10)])
+        lcases.append(("route.format", f'to_int(format({lit(a)}, "{r2[0]}"), {r2[1]}) == {lit(a)}', None, o_bool(True), (a, r2[1])))
     dumps = eval_exprs([c[1] for c in lcases])
     mlines = [(i, c[2]) for i, c in enumerate(lcases) if c[2]]
     mres = dict(zip([i for i, _ in mlines], run_model([l for _, l in mlines])))
     for i, ((name, expr, mline, want, inp), d) in enumerate(zip(lcases, dumps)):
         chk.evaluations += 1
         chk.count("lang:" + name)
-        if any(abs(x) > I64_MAX for x in inp):
+        if any(isinstance(x, int) and abs(x) > I64_MAX for x in inp) or any(isinstance(x, str) and len(x) > 19 for x in inp):
             chk.nontrivial.add((name,) + tuple(inp))
         got = canon_impl(d)
         replay = {"src": f"let r = {expr};", "get": ["r"], "expected": want, "got": d}
